@@ -166,12 +166,19 @@ def run_daemon(ctx: Ctx) -> tuple[dict[str, Any], list[Violation], list[str]]:
     states: set = set()
     tot: Counter[str] = Counter()
     outcomes: Counter[str] = Counter()
-    killers: Counter[str] = Counter()
     causes: dict[str, str] = {}
+    by_sig: Counter[str] = Counter()
     survived_kinds: Counter[str] = Counter()
     viols: list[Violation] = []
     samples: list[Any] = []
     check_outputs: set = set()
+    # behaviours that kill the daemon on their own, as measured by the length-1 sequences
+    intrinsic = {(r["seq"][0], r.get("killer_exc")) for r in results
+                 if len(r["seq"]) == 1 and r["died"] and r.get("killer") == r["seq"][0]}
+    for r in results:
+        for v in r["violations"]:
+            if "sig_parts" in v:
+                v["signature"] = D.exit_signature(v["sig_parts"], intrinsic)
     for r in results:
         tot["sequences"] += 1
         tot["transitions"] += r["served"]
@@ -182,15 +189,19 @@ def run_daemon(ctx: Ctx) -> tuple[dict[str, Any], list[Violation], list[str]]:
         herr.extend(r["harness_errors"])
         if r["died"]:
             tot["sequences_daemon_died"] += 1
-            killers[D.kind_of(r.get("killer", "?"))] += 1
-            causes.setdefault(D.kind_of(r.get("killer", "?")), r.get("cause", ""))
-        elif not r["harness_errors"]:
+            for v in r["violations"]:
+                if v["signature"].startswith("daemon-exits|"):
+                    causes.setdefault(v["signature"], r.get("cause", ""))
+        elif not r["harness_errors"] and not r.get("blocked"):
             tot["sequences_completed_probe_and_stop"] += 1
             for lab in r["seq"]:
                 if lab not in D.WELL_FORMED:
                     survived_kinds[D.kind_of(lab)] += 1
         check_outputs.update(r["check_outputs"])
+        if r.get("blocked"):
+            tot["sequences_daemon_blocked"] += 1
         for v in r["violations"]:
+            by_sig[v["signature"]] += 1
             viols.append(Violation(v["signature"], v["what"], {"lane": "daemon", **v["detail"]}))
         if len(samples) < 4 and len(r["seq"]) == 2 and not r["died"] and any(x not in D.WELL_FORMED for x in r["seq"]):
             samples.append({"sequence": r["seq"], "client_saw": r["outcomes"], "checks_compared_with_cold": r["checks_compared"]})
@@ -204,10 +215,12 @@ def run_daemon(ctx: Ctx) -> tuple[dict[str, Any], list[Violation], list[str]]:
         "sequences": tot["sequences"], "sequences_expected": len(seqs),
         "sequences_completed_probe_and_stop": tot["sequences_completed_probe_and_stop"],
         "sequences_daemon_died": tot["sequences_daemon_died"],
+        "sequences_daemon_blocked": tot["sequences_daemon_blocked"],
+        "violating_sequences_by_signature": dict(sorted(by_sig.items())),
         "client_steps_served": tot["transitions"], "conversation_states": len(states),
         "check_replies_compared_with_cold": tot["checks_compared"], "distinct_check_outputs": len(check_outputs),
         "distinct_step_outcomes": len(outcomes), "step_outcomes": dict(sorted(outcomes.items())),
-        "daemon_killed_by_kind": dict(sorted(killers.items())), "daemon_exit_cause_by_kind": dict(sorted(causes.items())),
+        "daemon_exit_cause_by_signature": dict(sorted(causes.items())),
         "fault_kinds_survived": dict(sorted(survived_kinds.items())), "bounds": bounds, "samples": samples,
     }
     vac = []
@@ -279,8 +292,21 @@ def replay(ctx: Ctx, rec: dict) -> Result:
         work = scratch("c16-replay", "w")
         shutil.rmtree(work)
         os.makedirs(work)
-        r = D.run_sequence(tuple(d["seq"]), work, scratch("c16-replay", "memo"))
+        memo = scratch("c16-replay", "memo")
+        r = D.run_sequence(tuple(d["seq"]), work, memo)
         print(f"sequence {d['seq']}: client saw {r['outcomes']}; daemon died={r['died']} cause={r.get('cause')}")
+        intrinsic = set()
+        if r["died"] and r.get("killer") and tuple(d["seq"]) != (r["killer"],):
+            shutil.rmtree(work, ignore_errors=True)
+            os.makedirs(work)
+            r1 = D.run_sequence((r["killer"],), work, memo)
+            if r1["died"] and r1.get("killer") == r["killer"]:
+                intrinsic.add((r["killer"], r1.get("killer_exc")))
+        elif r["died"]:
+            intrinsic.add((r.get("killer"), r.get("killer_exc")))
+        for v in r["violations"]:
+            if "sig_parts" in v:
+                v["signature"] = D.exit_signature(v["sig_parts"], intrinsic)
         for v in r["violations"]:
             print(f"  {v['signature']} :: {v['what']}")
             if v["signature"] == rec["signature"]:
